@@ -30,7 +30,7 @@ EXHAUSTIVE_SUBDOMAINS = []
 ASSUMPTIONS = ["positions are judged only for the simulated (cleanly encoded) aircraft; noise addresses are judged for robustness, "
                "listing and the Comm-B rule only", "between 59 s and 61 s of silence neither presence nor absence is judged",
                "longitude compared modulo 360; error measured as great-circle angle"]
-REQUIRED = ["calls", "transitions", "branch_ref", "branch_global", "branch_none", "evicted", "reappeared", "commb_attached", "commb_unknown_ignored",
+REQUIRED = ["calls", "batch_processed_at_tnow_exactly_zero", "transitions", "branch_ref", "branch_global", "branch_none", "evicted", "reappeared", "commb_attached", "commb_unknown_ignored",
             "surface_update", "airborne_update", "case_compare", "run_loop", "gap_lt10", "gap_10_180", "gap_gt180", "cross_antimeridian",
             "cross_equator", "cross_nl", "second_tracker_alive"]
 
@@ -246,7 +246,14 @@ def gen_history(rng, scen_name=None, window=False):
         else:
             ad = rng.choice(commb_only)
             events.append((t, "commb", commb_msg(rng, ad), ad, ("commb_only",)))
-    return {"events": events, "rx": rx, "commb_only": commb_only, "transitions": transitions[0]}
+    zero = False
+    if events and rng.random() < 0.3:
+        # "timestamps any non-decreasing reals": the clock of this history passes through EXACTLY 0 (a receiver counting from its
+        # own start, a replay relative to an event) - earlier stamps are negative, one batch is processed at tnow == 0
+        pivot = events[rng.randrange(len(events))][0]
+        events = [(t_ - pivot,) + tuple(rest) for (t_, *rest) in events]
+        zero = True
+    return {"events": events, "rx": rx, "commb_only": commb_only, "transitions": transitions[0], "clock_through_zero": zero}
 
 
 COMMB_FIELDS = {"tas": "tas50", "roll": "roll50", "rtrk": "rtrk50", "trk50": "trk50", "gs50": "gs50", "ias": "ias60", "hdg": "hdg60",
@@ -302,7 +309,14 @@ def _play(ctx, hist, d, lower, judge):
     while k < len(ev):
         nb = brng.choice((1, 1, 2, 3, 5, 8)) if bs is None else bs
         batch = ev[k:k + nb]
-        k += nb
+        zb = None
+        if hist.get("clock_through_zero"):
+            zb = next((j_ for j_, e_ in enumerate(batch) if e_[0] == 0), None)
+            if zb is not None:
+                while zb + 1 < len(batch) and batch[zb + 1][0] == 0:
+                    zb += 1
+                batch = batch[:zb + 1]       # this batch ends with the stamp 0 and is processed at tnow == 0
+        k += len(batch)
         at, am, ct, cm = [], [], [], []
         for (t, kind, m, addr, tr) in batch:
             mm = m.lower() if lower else m
@@ -315,6 +329,9 @@ def _play(ctx, hist, d, lower, judge):
             if tr and tr[0] == "pos":
                 truth[(addr, t)] = tr
         tnow = max(prev_tnow, batch[-1][0] + brng.choice((0.0, 0.01, 0.5)))   # the clock never runs backwards
+        if zb is not None and prev_tnow <= 0:
+            tnow = brng.choice((0, 0.0))
+            ctx.hit("batch_processed_at_tnow_exactly_zero")
         prev_tnow = tnow
         pre = {}
         if judge:
